@@ -975,7 +975,9 @@ func (s *Session) input(seg *segment) error {
 				panic(fmt.Sprintf("%v cipher block user name is not set", seg))
 			}
 			if prevUserName != nextUserName {
-				panic(fmt.Sprintf("%v cipher block user name %q is different from %v cipher block user name %q", s, prevUserName, seg, nextUserName))
+				// A segment authenticated by another user must not affect this session.
+				log.Debugf("%v cipher block user name %q is different from %v cipher block user name %q, dropping the segment", s, prevUserName, seg, nextUserName)
+				return nil
 			}
 		}
 
